@@ -44,6 +44,8 @@ func main() {
 		cmdReplay(os.Args[2:])
 	case "replay-selftest":
 		cmdReplaySelftest(os.Args[2:])
+	case "sweep":
+		cmdSweep(os.Args[2:])
 	case "gen-contracts":
 		cmdGen(os.Args[2:])
 	default:
